@@ -307,13 +307,16 @@ ProblemSpec gen_problem_raw(Rng& g, bool smooth_only, bool allow_culham)
         s.coeff = 6;
     else
         s.coeff = g.range(0, 6);
+    // shape parameters in a neighbourhood of the values the repository ships (kappa 0.3, delta 0.2; epsilon 0.3, e 1.4).
+    // Far outside it (e.g. kappa = 0.498, an aspect ratio of 3) the mapping is still invertible but the V-cycle with
+    // zebra line smoothing diverges on >= 4 levels: no property promises convergence there (DESIGN 7, scoping).
     if (s.geometry == 1) {
-        s.p1 = g.chance(0.15) ? 0.0 : g.uniform(0.0, 0.5);
-        s.p2 = g.chance(0.15) ? 0.0 : g.uniform(0.0, 0.3);
+        s.p1 = g.chance(0.15) ? 0.0 : g.uniform(0.0, 0.35);
+        s.p2 = g.chance(0.15) ? 0.0 : g.uniform(0.0, 0.25);
     }
     else if (s.geometry == 2) {
-        s.p1 = g.uniform(0.1, 0.5);
-        s.p2 = g.uniform(1.0, 2.0);
+        s.p1 = g.uniform(0.15, 0.4);
+        s.p2 = g.uniform(1.0, 1.6);
     }
     else {
         s.p1 = 0;
